@@ -22,7 +22,8 @@
        (IpcWireMC.cfg leaves the triggered classes out through KFSkip;
        IpcWireMC_asfound.cfg does not and must yield the counterexample).                                *)
 EXTENDS IpcWire
-CONSTANT Impl
+CONSTANTS Impl,     \* which transcription of the receive path is judged
+          Big       \* the larger protocol universe (thorough tier)
 
 U(x) == IF x < 0 THEN CAP ELSE x          \* an int32 converted to size_t
 
@@ -52,8 +53,8 @@ Checked(t, mx, actual, hsz) ==
 Outcome(c) == IF Impl = "asfound" THEN AsFound(c[1], c[2], c[3], c[4]) ELSE Checked(c[1], c[2], c[3], c[4])
 
 MaxVals == {0, 1, 15, 16, 17, 100, 8192}
-ActVals(mx) == {0, 1, 15, 16, 17, 24} \cup {x \in {mx - 1, mx, mx + 1, 2 * mx + 5} : x >= 0}
-HszVals(mx, a) == {-2147483647, -1, 0, 1, 15, 16, 17, 2147483647} \cup {x \in {a - 1, a, a + 1, mx, mx + 1} : x >= 0}
+ActVals(mx) == {0, 1, 8, 9, 11, 12, 15, 16, 17, 24} \cup {x \in {mx - 1, mx, mx + 1, 2 * mx + 5} : x >= 0}
+HszVals(mx, a) == {-2147483647, -1, 0, 1, 15, 16, 17, 256, 65536, 2147483647} \cup {x \in {a - 1, a, a + 1, mx, mx + 1} : x >= 0}
 Requests == UNION { UNION { {<<t, mx, a, h>> : h \in HszVals(mx, a)} : a \in ActVals(mx)} : t \in {SOCK, SHM}, mx \in MaxVals}
 
 VARIABLE judged       \* <<request, outcome>> of the request class judged last
@@ -69,7 +70,7 @@ TriggersExact == (Impl = "asfound" /\ judged # <<>>) =>
                    LET c == judged[1] IN
                    (KF1(c[1], c[2], c[3], c[4]) \/ KF2(c[1], c[2], c[3], c[4]) \/ KF3(c[1], c[2], c[3], c[4])) <=> ~JudgeOK
 (* request classes under a recorded finding (KFSkip) are not judged *)
-AJudge == ~up /\ peers = <<>> /\ \E c \in Requests : ~Skipped(c[1], c[2], c[3], c[4]) /\ judged' = <<c, Outcome(c)>> /\ UNCHANGED vars
+AJudge == judged = <<>> /\ ~up /\ peers = <<>> /\ \E c \in Requests : ~Skipped(c[1], c[2], c[3], c[4]) /\ judged' = <<c, Outcome(c)>> /\ UNCHANGED vars
 
 (* ---- the protocol machine ---- *)
 B0 == <<6, 1000, 0>>
@@ -78,15 +79,16 @@ Raw == 1
 Good == 2
 AUp == judged = <<>> /\ UNCHANGED judged /\ \E t \in {SOCK, SHM} : Up(t, 0, B0)
 AConnect == judged = <<>> /\ UNCHANGED judged /\
-            \/ \E id \in {AUTH, 0}, total \in {10, RS} : Connect(Raw, 0, id, RS, 100, total, 0)
+            \/ \E id \in {AUTH, 0}, total \in (IF Big THEN {10, RS, RS + 16} ELSE {10, RS}) : Connect(Raw, 0, id, RS, 100, total, 0)
             \/ Connect(Good, 1, AUTH, RS, 12328, RS, 0)
 AWrite == judged = <<>> /\ UNCHANGED judged /\
           \E p \in DOMAIN peers : \E n \in {10, peers[p].total - peers[p].sent} :
              n > 0 /\ n <= peers[p].total - peers[p].sent /\ \E w \in {n, -32} : Write(p, n, w)
 AClose == judged = <<>> /\ UNCHANGED judged /\ \E p \in DOMAIN peers : Close(p)
-AResp == judged = <<>> /\ UNCHANGED judged /\ \E kind \in 0..2, err \in {0, -13} : Resp(Raw, kind, err, 100, tr)
+AResp == judged = <<>> /\ UNCHANGED judged /\ \E kind \in (IF Big THEN 0..3 ELSE 0..2), err \in {0, -13} : Resp(Raw, kind, err, 100, tr)
 AAttach == judged = <<>> /\ UNCHANGED judged /\ \E rc \in {0, -22} : Attach(Raw, rc)
-RawSends == {<<16, 16>>, <<16, 100>>, <<100, -1>>, <<101, 101>>}
+RawSends == IF Big THEN {<<16, 16>>, <<100, 16>>, <<16, 100>>, <<100, -1>>, <<101, 101>>, <<0, 0>>}
+                   ELSE {<<16, 16>>, <<16, 100>>, <<100, -1>>, <<101, 101>>}
 ASend == judged = <<>> /\ UNCHANGED judged /\
          \/ \E m \in RawSends, note \in {0, 1} : \E rc \in {m[1], -11} : Send(Raw, m[1], 5, m[2], note, rc)
          \/ Send(Good, 64, 5, 64, 1, 64)
